@@ -28,6 +28,25 @@ let do_rlc () =
   let cs = rep n (fun () -> let w = z () in let t = z () in let x = z () in { cw = w; ct = t; cx = x }) in
   Printf.printf "%d\n" (if cert_ok b e cs then 1 else 0)
 
+let orient_of_int = function 0->ON|1->OS|2->OW|3->OE|4->OFN|5->OFS|6->OFW|7->OFE|8->OINVALID|_->OUNKNOWN
+let int_of_orient = function ON->0|OS->1|OW->2|OE->3|OFN->4|OFS->5|OFW->6|OFE->7|OINVALID->8|OUNKNOWN->9
+let rect () = let a = z () in let b = z () in let c = z () in let d = z () in {minX=a;maxX=b;minY=c;maxY=d}
+let row () = let r = rect () in let o = orient_of_int (nexti ()) in {rr=r; ro=o}
+let show_rows l = String.concat ";" (List.map (fun r -> Printf.sprintf "%d %d %d %d %d" (int_of_z r.rr.minX) (int_of_z r.rr.maxX) (int_of_z r.rr.minY) (int_of_z r.rr.maxY) (int_of_orient r.ro)) l)
+
+let do_fs () =
+  let r = row () in let n = nexti () in let obs = rep n rect in
+  print_endline (show_rows (freespace_rows r obs))
+
+let do_cr () =
+  let nr = nexti () in let rows = rep nr row in
+  let ne = nexti () in let extra = rep ne rect in
+  let nc = nexti () in
+  let cells = rep nc (fun () -> let x = z () in let y = z () in let w = z () in let h = z () in
+                       let o = orient_of_int (nexti ()) in let fx = nexti () <> 0 in let ob = nexti () <> 0 in
+                       ((((((x, y), w), h), o), fx), ob)) in
+  print_endline (show_rows (compute_rows_circuit rows extra cells))
+
 let () =
   try while true do
     let line = input_line stdin in
@@ -40,6 +59,8 @@ let () =
          (match tag with
           | "RL" -> do_rl ()
           | "RLC" -> do_rlc ()
+          | "FS" -> do_fs ()
+          | "CR" -> do_cr ()
           | _ -> print_endline "?TAG")
         with Short -> print_endline "?SHORT"))
   done with End_of_file -> ()
